@@ -509,7 +509,7 @@ func c05TunnelScenarios(tier string) []*Scenario {
 		}},
 	}
 	for _, cfg := range []TunCfg{{}, {Cap: 1}, {Reverse: true}} {
-		for _, side := range []string{"handler", "caller"} {
+		for _, side := range []string{"handler", "caller", "caller-ended-by-peer"} {
 			cfg, side := cfg, side
 			b := 1
 			if thorough {
@@ -535,9 +535,18 @@ func c05TunnelScenarios(tier string) []*Scenario {
 						d.Call.Ops = []COp{{K: "new"}, {K: "send", Size: 100000}, {K: "recvall"}}
 						d.Handler.Ops = []HOp{{K: "waitctx"}, {K: "return", Code: codes.Aborted, Msg: "never read"}}
 					}
+					if side == "caller-ended-by-peer" {
+						// the handler ends the RPC without reading while the caller is parked on the
+						// window; the caller's own context is never cancelled, so only the end of the
+						// stream can release the blocked send
+						d.Call.KeepCtx = true
+						d.Handler.Ops = []HOp{{K: "return", Code: codes.Aborted, Msg: "never read"}}
+					}
 					d.Handler.KeepGoing = true
 					ths := w.StartCallers(t, []Workload{d})
-					w.StartFault(t, "cancel:d")
+					if side != "caller-ended-by-peer" {
+						w.StartFault(t, "cancel:d")
+					}
 					w.Join(ths...)
 					w.Join(w.StartCallers(t, []Workload{StdWorkload("r2", 2, "Bidi", []int{65537}, []int{65537})})...)
 					t.Close()
